@@ -12,10 +12,13 @@ class ContractBroken(Exception):
     pass
 
 
-def header_width_matches(output_table, output_column_names):
+def header_width_matches(input_table, join_table, output_table, output_column_names):
     COUNTS['header_width'] += 1
     if not output_column_names:
         return True
+    for t in (input_table, join_table):
+        if t and len(set(len(r) for r in t)) > 1:
+            return True   # ragged sources: star / EXCEPT select lists have no fixed column count (outside the statement)
     return all(len(r) == len(output_column_names) for r in output_table)
 
 
@@ -70,7 +73,7 @@ def armed_query_table(ns):
             OLD.warnings_before = snapshot_warnings(output_warnings)
             OLD.sources_before = snapshot_sources(input_table, join_table)
             r = f(query_text, input_table, output_table, output_warnings, join_table, input_column_names, join_column_names, output_column_names, normalize_column_names, user_init_code)
-            if not header_width_matches(output_table, output_column_names):
+            if not header_width_matches(input_table, join_table, output_table, output_column_names):
                 raise ContractBroken('output header width differs from a record width')
             if not output_rows_are_fresh(input_table, join_table, output_table):
                 raise ContractBroken('an output row is an input row')
